@@ -1,9 +1,11 @@
 #!/bin/bash
 # usage: tools/sweep_clean.sh "<seeds>" [tier]   every check on the unchanged tree, 6 at a time; prints only the runs that need
 # attention (a VIOLATION line, an infrastructure failure, a non-zero exit, disagreements) and a count at the end
-cd /verif
+cd "$(dirname "$0")/.."
+OUT=$(mktemp)
 SEEDS=${1:-"1 2 3"}; TIER=${2:-quick}
 one() { s=$1; c=$2; out=$(VERIF_SEED=$s ./check $c --tier $3 2>&1); rc=$?; last=$(echo "$out" | grep -v "^KNOWN" | tail -1)
   if [ $rc -ne 0 ] || echo "$out" | grep -q "^VIOLATION\|INFRASTRUCTURE" || ! echo "$last" | grep -q "disagreements 0, violations 0 new"; then echo "ATTENTION rc=$rc $last"; echo "$out" | grep "^VIOLATION\|INFRA" | head -3; else echo "ok $c seed=$s"; fi; }
 export -f one
-for s in $SEEDS; do for c in C01 C02 C03 C04 C05 C06 C07 C08 C09 C10 C11 C12 C13 C14 C15 C16 C17 C18 C19; do echo "$s $c $TIER"; done; done | xargs -P 6 -L 1 bash -c 'one $0 $1 $2' | sort | uniq -c | sort -rn > /tmp/sweep.out; grep -v " ok " /tmp/sweep.out; echo "sweep done: $(grep -c " ok " /tmp/sweep.out) runs ok, $(grep -c ATTENTION /tmp/sweep.out) need attention"
+for s in $SEEDS; do for c in C01 C02 C03 C04 C05 C06 C07 C08 C09 C10 C11 C12 C13 C14 C15 C16 C17 C18 C19; do echo "$s $c $TIER"; done; done | xargs -P 6 -L 1 bash -c 'one $0 $1 $2' | sort | uniq -c | sort -rn > $OUT; grep -v " ok " $OUT; echo "sweep done: $(grep -c " ok " $OUT) runs ok, $(grep -c ATTENTION $OUT) need attention"
+rm -f $OUT
